@@ -564,6 +564,13 @@ func siteSig(id int32) string {
 
 // newExecution builds fresh state: a fresh parse of the shared statement, fresh threads.
 func newExecution(sc scenario, bs []*c17b.Body, prefix []int, conflict map[int]bool) *execution {
+	// Priming: whatever the library keeps between calls (a cache, a memo of the last value) must be in the same state at
+	// the start of every execution of a scenario, or a recorded schedule prefix cannot be replayed. The state an
+	// execution leaves depends on its schedule; so every execution is preceded by the same calls made one after the
+	// other, outside the scheduler: each body of the scenario alone, in order.
+	for _, bi := range sc.bodies {
+		soloResult(bs[bi], sc.shared)
+	}
 	c17b.Reset()
 	st, err := influxql.ParseStatement(c17b.SharedTexts[sc.shared])
 	if err != nil {
@@ -815,6 +822,12 @@ func main() {
 		os.Exit(2)
 	}
 	tier, idir := os.Args[1], os.Args[2]
+	if os.Getenv("VERIF_SUPERVISED") == "" {
+		// a thread that blocks inside the library on something the shims do not see (a channel nobody closes) leaves
+		// the scheduler waiting for it: the Go runtime ends the process ("all goroutines are asleep"), and the parent
+		// reports that as what it is
+		os.Exit(ev.Supervise("C17", tier))
+	}
 	if b, err := os.ReadFile(idir + "/sites.json"); err == nil {
 		json.Unmarshal(b, &sites)
 	}
